@@ -1,5 +1,5 @@
 import Secp.Proofs.GroupTies
-import Secp.Proofs.BytesTies
+import Secp.Proofs.BytesTiesPH
 import Secp.Proofs.HashToGroup
 /-!
 # C08 — HashToGroup / EncodeToGroup conform to RFC 9380 for every message and DST
